@@ -25,6 +25,7 @@ type SolveResult struct {
 }
 
 var spNameRe = regexp.MustCompile(`sp_[A-Za-z0-9_]+`)
+var nmNameRe = regexp.MustCompile(`n[mf]_[A-Za-z0-9_]+`)
 
 // script assembles the SMT-LIB script of one obligation.
 func (e *enc) script(o *Obligation, withValues []string) string {
@@ -61,7 +62,8 @@ func (e *enc) script(o *Obligation, withValues []string) string {
 		}
 		return changed
 	}
-	scan(body.String())
+	bodyText := body.String()
+	scan(bodyText)
 	scan(tail)
 	axIn := make([]bool, len(e.axioms))
 	for changed := true; changed; {
@@ -79,6 +81,14 @@ func (e *enc) script(o *Obligation, withValues []string) string {
 			for _, m := range spNameRe.FindAllString(ax.text, -1) {
 				if used[strings.TrimPrefix(m, "sp_")] {
 					hit = true
+				}
+			}
+			if !hit {
+				// axioms over node functions only (no spec function): relevant when one of their functions occurs
+				for _, m := range nmNameRe.FindAllString(ax.text, -1) {
+					if strings.Contains(bodyText, m+" ") || strings.Contains(tail, m+" ") {
+						hit = true
+					}
 				}
 			}
 			if hit {
